@@ -6,11 +6,16 @@ from harness import engine_suites, synth_suites
 RULE = ("random workflows (1-5 stages, every join type, scripted task outcomes incl. polling / transient / jump / suspend) x "
         "delivery schedules (fifo | random order | random + redelivery of unacknowledged messages | arbitrary incl. early re-polls), "
         "per workflow the reference FIFO run is taken, then the worker is killed at commit k of delivery j (quick: 5 sampled (j,k) per workflow, thorough: EVERY commit of every delivery), restarted, locks expired, recovery sweep(s), FIFO drain; every op is applied to the REAL engine and the Lean model, the state line after every op is compared; "
-        "a trace is distinct by (spec, op list) and non-trivial when it has >= 8 ops and a non-FIFO choice or an injected op")
+        "a trace is distinct by (spec, op list) and non-trivial when it has >= 8 ops and a non-FIFO choice or an injected op;"
+        " PLUS the synthetic-stage family (harness/synth_suites.py, IMPLEMENTATION-ONLY: monitors on real-engine traces, no model line): workflows of 1-3 top-level stages (single | chain | two parallel roots | fan-in), some with 1-2 pre-declared STAGE_BEFORE and / or STAGE_AFTER children (children 1 task, parents 0-2; task results succeed | terminal | fail-continue | poll then succeed | suspend), stored through the real store, driven by the crash family only: reference in-order run, kill after k commits of delivery j (quick: 64 workflows x 5 points, those about parents / children / ContinueParentStage first; thorough: every point), restart, sweep(s) before or after the lock lapses, late redelivery of the un-acked row, in-order drain; judged by smon_c01 (statuses of all stages incl. children, per-task execution counts), smon_c05 and the transition-table monitor")
 ASSUMPTIONS = ["delays are abstracted: budget-respecting schedules deliver a delayed message only when no immediate one is pending",
-               "per-workflow circuit breaker disabled in the harness (volatile state outside the model)"]
+               "per-workflow circuit breaker disabled in the harness (volatile state outside the model)",
+               "synthetic-stage family: the reference is the uninterrupted in-order run on the tree under test (recomputed on replay); comparison of statuses / execution counts is skipped for halting workflows when the crash run reorders messages, as in mon_c01",
+               "synthetic-stage family: the nine defects it found on the unchanged tree (S1-S9) were repaired (F44-F51); its pending gate (synth_suites.PENDING) is empty, every synth: signature is reported"]
 TRUSTED_BASE = ["Engine model (lean/Stab/Model/Engine.lean) is hand-written; tied to handlers/* by the trace differential on generated schedules only",
-                "not modelled: synthetic stages, mutex/deferred choice, OR-split conditions, pause/resume, timeouts, PostgreSQL backend"]
+                "not modelled: synthetic stages (and ContinueParentStage), mutex/deferred choice, OR-split conditions, pause/resume, timeouts, PostgreSQL backend",
+                "synthetic before/after stages are covered by an IMPLEMENTATION-ONLY family (harness/synth_suites.py): the property is stated by monitors on traces of the real engine; "
+                "no theorem and no model correspondence speaks about them; trusted there: the generator, the monitors' reading of the property (ASSUMPTIONS), the queue's dead-letter rule as replayed by the harness (op q = the real check_and_move_expired after max_attempts deliveries)"]
 
 
 def run(ctx) -> None:
